@@ -365,7 +365,7 @@ pub fn family2(prop: &str, i: u64, rng: &mut Rng, out: &mut Outcome, dir: &std::
     let planted_by = if rng.chance(60) { f.n1 } else { f.admin1 };
     let planted_role = if planted_by == f.n1 { "non-admin" } else { "other-admin" };
     let victim_pk = f.w.clients[f.n2].pk();
-    let kind = rng.below(3);
+    let kind = rng.below(4);
     // what the planted proposal would do if somebody committed it
     let mut planted_adds: BTreeSet<PublicKey> = BTreeSet::new();
     let mut planted_removes: BTreeSet<PublicKey> = BTreeSet::new();
@@ -380,6 +380,14 @@ pub fn family2(prop: &str, i: u64, rng: &mut Rng, out: &mut Outcome, dir: &std::
             let ev = f.w.clients[j].key_package_event();
             let kp = with_mdk!(f.w.clients[j].mdk, x => x.parse_key_package(&ev)).ok();
             ("Add(outsider)", kp.and_then(|kp| with_mdk!(f.w.clients[planted_by].mdk, x => adv::mls_proposal(x, &gid, &adv::RawProposal::Add(kp)))))
+        }
+        2 => {
+            // an outsider asks to be added with an external Add proposal (sender new_member_proposal),
+            // wrapped for it by a member; nobody may ever commit it (it is answered
+            // ExternalJoinProposal and must not enter the queue, so `planted` stays false and any
+            // extra member after the admin's operation is unexplained)
+            let outsider = nostr::Keys::generate().public_key();
+            ("JoinProposal(outsider)", with_mdk!(f.w.clients[planted_by].mdk, x => adv::join_proposal(x, &gid, &outsider)))
         }
         _ => ("none", None),
     };
@@ -401,6 +409,7 @@ pub fn family2(prop: &str, i: u64, rng: &mut Rng, out: &mut Outcome, dir: &std::
             }
         }
     }
+    out.note("offered_proposals", format!("{plabel} by {planted_role} -> queued at the admin: {planted}"));
     // the admin's own operation
     let op = rng.below(4);
     let before: BTreeMap<usize, View> = [f.admin0, f.admin1, f.n1, f.n2].into_iter().filter_map(|c| view(&f.w, c, g).map(|v| (c, v))).collect();
